@@ -1,3 +1,4 @@
+#![allow(unused_imports)]
 //! Correspondence stream CTOR: public component constructors over boundary / inconsistent
 //! arguments (C18).  Lists are comma separated, `v*k` stands for k copies of v, `-` is empty.
 //!   CTOR <id> RES <po> <block> <warm> <params> <quots> <rems>
@@ -205,6 +206,13 @@ pub fn gen(seed: u64, n: usize, out: &mut String) {
 }
 
 // ---------------- execution ----------------
+#[cfg(not(feature = "hdecode"))]
+pub fn run(id: &str, _rest: &str) -> String { format!("{} unsupported-build", id) }
+
+#[cfg(feature = "hdecode")]
+mod exec {
+use super::*;
+
 enum Built { Err, InnerErr, Ok(Comp) }
 enum Comp { Res(Residual, usize, usize), Qp(QuantizedParameters), Sub(SubFrame, usize, usize), Fh(FrameHeader), Frame(Frame, usize, usize), Si(StreamInfo), Unk(MetadataBlockData, usize) }
 
@@ -320,3 +328,6 @@ pub fn run(id: &str, rest: &str) -> String {
     };
     format!("{} {}", id, body)
 }
+}
+#[cfg(feature = "hdecode")]
+pub use exec::run;
